@@ -34,7 +34,7 @@ compiling and passing the existing 40 tests: `patch.diff` (apply with `git -C /r
 demonstration written by its author, `meta.json` (property, what it needs to manifest, what was run) and
 `result.json` (which of /verif's checks report it, with labels). The authors (fresh sub-agents) saw only the
 property text and a scratch worktree of /repo, nothing from /verif. Directories `Cxx` are the first round,
-`Cxxb` the second, `Cxxc` the third, `Cxxd` the fourth, `Cxxe` the fifth and `Cxxf` the sixth round (authors were told the earlier changes for their property and asked
+`Cxxb` the second, `Cxxc` the third, `Cxxd` the fourth, `Cxxe` the fifth, `Cxxf` the sixth and `Cxxg` the seventh round (authors were told the earlier changes for their property and asked
 for a substantially different one).
 
 | id | property | change | needs | caught by | verification / history |
